@@ -224,7 +224,8 @@ type state struct {
 	set     Settings
 	fields  *Method // method whose field settings apply (nil behind a named boundary)
 	ftarget string  // key of the struct type the field settings apply to
-	owner   string  // package owning unnamed struct literals at this position
+	owner   string  // package owning unnamed TARGET struct literals at this position
+	sowner  string  // package owning unnamed SOURCE struct literals at this position
 	sub     map[string]bool
 	subs    map[string]*Plan
 	seen    map[string]bool // named source types seen inline in the current (sub-)method
@@ -340,7 +341,7 @@ func (c *Conv) Check(m *Method) *Reject {
 
 // Plan decides the declared method m and returns how every position is converted.
 func (c *Conv) Plan(m *Method) (*Result, *Reject) {
-	st := &state{c: c, root: m, set: m.Settings, fields: m, owner: c.ConvPkg, sub: map[string]bool{}, subs: map[string]*Plan{}, seen: map[string]bool{}}
+	st := &state{c: c, root: m, set: m.Settings, fields: m, owner: c.ConvPkg, sowner: c.ConvPkg, sub: map[string]bool{}, subs: map[string]*Plan{}, seen: map[string]bool{}}
 	st.cursig = [2]string{key(m.Source), key(m.Target)}
 	st.ftarget = key(m.Target)
 	if u := st.under(m.Target); u.K == spec.KPtr && st.under(u.Elem).K == spec.KStruct {
@@ -512,6 +513,15 @@ func (m *Method) hasFieldSettings() bool {
 
 // rules applies the ordered rule list at (src, dst).
 func (st *state) rules(src, dst *spec.T) (*Plan, *Reject) {
+	// unnamed struct literals below a named type belong to the package declaring that type
+	so, do := st.sowner, st.owner
+	defer func() { st.sowner, st.owner = so, do }()
+	if src.K == spec.KNamed && src.Pkg != "" {
+		st.sowner = src.Pkg
+	}
+	if dst.K == spec.KNamed && dst.Pkg != "" {
+		st.owner = dst.Pkg
+	}
 	if r := st.overlap(src, dst); r != nil {
 		return nil, r
 	}
@@ -733,6 +743,18 @@ func (st *state) fieldOwner(t *spec.T) string {
 	return st.owner
 }
 
+// srcFieldOwner returns the package owning the fields of source struct type t.
+func (st *state) srcFieldOwner(t *spec.T) string {
+	if t.K == spec.KNamed {
+		saved := st.owner
+		st.owner = st.sowner
+		o := st.fieldOwner(t)
+		st.owner = saved
+		return o
+	}
+	return st.sowner
+}
+
 type member struct {
 	name   string
 	t      *spec.T // field type, or result type for callables
@@ -934,6 +956,7 @@ func (st *state) structRule(src, dst *spec.T) (*Plan, *Reject) {
 		}
 		inner := *st
 		inner.owner = owner
+		inner.sowner = st.srcFieldOwner(src)
 		conv, rej := inner.position(next, tf.T)
 		if rej != nil {
 			return nil, rej
@@ -1021,7 +1044,7 @@ func (st *state) mapField(fc *FieldCfg, name string, src *spec.T, autos []autoSr
 		if m == nil {
 			return nil, nil, false, reject("map-path", "%q does not exist", seg)
 		}
-		if !spec.Exported(m.name) && st.fieldOwner(cur) != st.c.OutPkg {
+		if !spec.Exported(m.name) && st.srcFieldOwner(cur) != st.c.OutPkg {
 			// reading an unexported field from another package cannot compile
 			return nil, nil, false, reject("unexported-source", "field %s", m.name)
 		}
